@@ -129,6 +129,17 @@ func (t *tenv) genInt(d int) nexp {
 	case 3:
 		a := t.genInt(d - 1)
 		m := r.Range(2, 7)
+		if r.Bool() {
+			// the divisor is a (non-zero) number from the data, the dividend a literal or any integer expression
+			div := eDot(eDot(eId("o"), "c"), "d") // 1..7
+			if r.Chance(1, 3) {
+				div = eBin("+", div, eNum(strconv.Itoa(r.Range(1, 3))))
+			}
+			if r.Bool() {
+				return nexp{eBin("%", eNum(strconv.Itoa(r.Range(0, 40))), div), true, 10, 0}
+			}
+			return nexp{eBin("%", a.e, div), true, 10, 0}
+		}
 		return nexp{eBin("%", a.e, eNum(strconv.Itoa(m))), true, float64(m), 0}
 	case 4:
 		a := t.genInt(d - 1)
